@@ -111,6 +111,20 @@ pub fn check_hex_str(s: &str) -> (bool, Vec<Viol>) {
             (Some(x), Ok(v)) if *v as u128 != x => out.push(viol("C05/hex-parse-value", format!("parsed to {:#x}, value is {:#x}", v, x), case.clone())),
             _ => {}
         }
+    } else {
+        // not a digit string: if it is accepted at all, the value must be the value of a digit string the
+        // caller can recognise in it - the string itself after one optional leading '+' (what the pinned
+        // release accepts). Anything else (a character read as a digit through a truncated code point, a
+        // sign or separator swallowed in the middle) returns a number the string does not spell: two
+        // different strings that are not both numbers denote one id.
+        if let Ok(v) = &r {
+            decided = true;
+            let body = s.strip_prefix('+').unwrap_or(s);
+            let spelled = !body.is_empty() && body.bytes().all(|b| b.is_ascii_hexdigit()) && u128::from_str_radix(body, 16).map(|x| x == *v as u128).unwrap_or(false);
+            if !spelled {
+                out.push(viol("C05/hex-parse-non-hex", format!("{:?} is not a string of hex digits but parsed to {:#x}", s, v), case.clone()));
+            }
+        }
     }
     (decided, out)
 }
@@ -397,6 +411,30 @@ pub fn run(tier: &str) -> Report {
         for pos in 0..total {
             for ch in ["é", "٣", "€", "😀"] {
                 strings.push(format!("{}{}{}", "f".repeat(pos), ch, "f".repeat(total - pos - 1)));
+            }
+        }
+    }
+    // characters above U+00FF whose low byte (or low byte of any UTF-16 / UTF-8 unit) is an ASCII hex digit,
+    // alone, in front of, behind and between digits
+    for hi in [0x01u32, 0x04, 0x06, 0x20, 0x30, 0xff, 0x1f6, 0x100] {
+        for lo in (0x30u32..=0x39).chain(0x41..=0x46).chain(0x61..=0x66) {
+            if let Some(ch) = char::from_u32((hi << 8) | lo) {
+                strings.push(ch.to_string());
+                strings.push(format!("{}{}", ch, ch));
+                strings.push(format!("1{}", ch));
+                strings.push(format!("{}f", ch));
+                strings.push(format!("eb6{}0000", ch));
+            }
+        }
+    }
+    // a sign, a blank or a separator at every position of digit strings of every length up to 20
+    for len in 1usize..=20 {
+        for pos in 0..=len {
+            for sep in ["+", "-", " ", "_", ".", ",", "x", "\u{0}"] {
+                let mut t = "f1".repeat(len);
+                t.truncate(len);
+                t.insert_str(pos, sep);
+                strings.push(t);
             }
         }
     }
